@@ -36,6 +36,8 @@ VIOLATIONS = [
     ("undeclared_q = 1;", "block"), ("break;", "block"), ("continue;", "block"), ("case 1: ;", "block"), ("default: ;", "block"), ("int z%d = undeclared_q + 1;", "block"),
     ("return undeclared_q;", "block"), ("_Static_assert(0, \"in block\");", "block"), ("1 = 2;"[:0] or "int z%d z2;", "block"), ("goto ;", "block"),
     ("switch (1) { case 1: case 1: ; }", "block"), ("int z%d = *1;", "block"), ("struct nosuch_b z%d;", "block"), ("if (1 {}", "block"), ("z_undecl();", "block"),
+    # found only when the statement is lowered (qbe.c), after it has been parsed: stores to const objects declared by the host function
+    ("l_cq = 2;", "block"), ("l_cq += l_acc;", "block"), ("l_cs.m = 3;", "block"), ("l_acc = (l_cq = 5);", "block"), ("l_ca[1] = 0;", "block"), ("*l_pc = 1;", "block"), ("l_cs = l_cs;", "block"),
     ("int z%d = sizeof(int[);", "block"), ("void zv%d;", "block"), ("@macro-arity", "file"), ("@macro-arity", "block"), ("@macro-arity", "block"), ("int z%d = 1 +* ;"[:0] or "(void)undeclared_q;", "block"),
 ]
 
@@ -180,7 +182,7 @@ def decorated(draw):
         decorate(False)
     if scope == "block":
         lines.append("int fn_host(void) {")
-        lines.append("int l_acc = 0;")
+        lines.append("int l_acc = 0; const int l_cq = 1; const struct { int m; } l_cs = { 1 }; const int l_ca[2] = { 0 }; const int *l_pc = &l_cq;")
         for _ in range(draw(st.integers(0, 6))):
             decorate(True)
     # the violation, optionally split by a splice (then it occupies two physical lines)
